@@ -136,8 +136,40 @@ TNull ==
            ELSE /\ (dom /\ PROP = "C18") => (p = pos) = TRUE
                 /\ UNCHANGED <<pos, ld, dom, hmap>>
 
+(* The deprecated in-place editing API (set_piece, clear_square, add/remove_castle_rights):    *)
+(* positions obtained this way are positions "however obtained" for the derived-state       *)
+(* properties.  The edit itself is specified here: the square gets the man (or is emptied),  *)
+(* nothing else changes, and the edit is refused iff it would leave the side NOT to move in  *)
+(* check.  Judged (PROP = C03) only while exactly one king per side stands on the board and  *)
+(* the kings are not adjacent; otherwise the logged state is followed.                       *)
+KingsApart(b) == OneKingEach(b) /\ KingSq(b, "w") \notin KingT[KingSq(b, "b")]
+
+TEdit ==
+  /\ IsEvent("Edit")
+  /\ LET r  == Rec[l]
+         b2 == [pos.b EXCEPT ![r.esq] = r.man]          \* r.man = "." for clear_square
+         judged == PROP = "C03" /\ KingsApart(pos.b) /\ KingsApart(b2)
+     IN /\ judged => (r.ok = ~InCheck(b2, Other(pos.stm))) = TRUE
+        /\ IF r.ok
+           THEN LET p == EvPos(r)
+                IN /\ judged => (p = [pos EXCEPT !.b = b2]) = TRUE
+                   /\ pos' = p /\ ld' = ld /\ dom' = Valid(p)
+                   /\ (IF Valid(p) THEN Obs(r, p, pos, ld, FALSE) ELSE TRUE) = TRUE
+                   /\ hmap' = HmapAfter(r, p)
+           ELSE UNCHANGED <<pos, ld, dom, hmap>>
+
+TRights ==
+  /\ IsEvent("Rights")
+  /\ LET r == Rec[l]
+         p == EvPos(r)
+         want == IF r.add THEN pos.cr \cup SeqSet(r.which) ELSE pos.cr \ SeqSet(r.which)
+     IN /\ (PROP = "C03") => (p = [pos EXCEPT !.cr = want]) = TRUE
+        /\ pos' = p /\ ld' = ld /\ dom' = Valid(p)
+        /\ (IF Valid(p) THEN Obs(r, p, pos, ld, FALSE) ELSE TRUE) = TRUE
+        /\ hmap' = HmapAfter(r, p)
+
 TInit == l = 1 /\ pos = StartPos /\ ld = NoSq /\ dom = TRUE /\ hmap = << >>
-TNext == TReset \/ TMove \/ TNull
+TNext == TReset \/ TMove \/ TNull \/ TEdit \/ TRights
 TSpec == TInit /\ [][TNext]_tvars
 
 (* one TLC state per consumed line plus the initial state *)
